@@ -217,7 +217,7 @@ func runC05(r *vf.Run) {
 	}})
 	cases = append(cases, c5{id: "dense150k", crafted: true, ds: func(rng *rand.Rand) *gen.Dataset {
 		// several MiB of serialised bitmaps in few values (no unique column)
-		return gen.MakeDataset(rng, "dense150k", gen.DatasetOpts{Rows: 150000, MaxCols: 6, NoMissing: true, Shapes: []gen.ValueShape{gen.ShapeCategorical, gen.ShapeBinary}})
+		return gen.Dense(rng, 150000, 6, 64)
 	}})
 	cases = append(cases, c5{id: "wide-rows", crafted: true, ds: func(rng *rand.Rand) *gen.Dataset { return gen.WideRows(rng) }})
 	cases = append(cases, c5{id: "u70000", crafted: true, ds: func(rng *rand.Rand) *gen.Dataset {
